@@ -188,18 +188,20 @@ def run(tier, seed):
              "deps_files": 0, "deps_nonempty": 0}
     n_eval = 0
     by_class = {}
+    disagreeing = set()
     if results is None:
         rep.disagree({"part": "harness-child", "hazard": "none", "where": "n/a"}, "crash", fail)
     else:
         for c in cases:
             n_eval += 1
             for desc, oc, det in examine(c, results[c["id"]], stats):
+                disagreeing.add(c["id"])
                 by_class[(desc["hazard"], desc["part"], oc)] = by_class.get((desc["hazard"], desc["part"], oc), 0) + 1
                 rep.disagree(desc, oc, det)
         # binding demonstration: corrupted expectations must be rejected
-        good = [c for c in cases if c["hz"] == "none" and "L" in c["ref"] and "C" in c["ref"]]
+        good = [c for c in cases if c["id"] not in disagreeing and "L" in c["ref"] and "C" in c["ref"]]
         bad = 0
-        sel = rng.sample(good, 40)
+        sel = rng.sample(good, min(40, len(good)))
         for c in sel:
             ref = c["ref"]
             i = ref.index("L") if rng.random() < 0.5 else ref.index("C")
